@@ -61,6 +61,11 @@ func (s *server) start() error {
 	if err != nil {
 		return err
 	}
+	// nothing may be listening on our port: talking to somebody else's server (another run of this check) would mix two histories
+	if resp, err := s.hc.Get(s.base + "/ping"); err == nil {
+		resp.Body.Close()
+		return fmt.Errorf("port %d is in use by another server", s.port)
+	}
 	cmd := exec.Command(s.bin, "-config", s.conf)
 	cmd.Dir = s.dir
 	cmd.Stdout, cmd.Stderr = logf, logf
@@ -151,7 +156,11 @@ func (s *server) query(db, q string) ([]qSeries, error) {
 	return r.Results[0].Series, nil
 }
 
-func (s *server) write(db, rp, body string) error {
+// write sends a batch; an attempt the server refused (or that could not be delivered) is sent again. It returns the refused
+// attempts: the server may still apply such an attempt LATER (its coordinator retries towards the store on its own), so a
+// history with a refused attempt of a write is not judged - rows of that write landing after a drop are new writes, not
+// dropped data coming back.
+func (s *server) write(db, rp, body string) (refused []string, err error) {
 	u := s.base + "/write?db=" + url.QueryEscape(db)
 	if rp != "" {
 		u += "&rp=" + url.QueryEscape(rp)
@@ -161,23 +170,24 @@ func (s *server) write(db, rp, body string) error {
 		resp, err := s.hc.Post(u, "text/plain", strings.NewReader(body))
 		if err != nil {
 			if isTimeout(err) {
-				// the request may still be executed by the server later: never send it again (a late duplicate of a write from
-				// before a drop would look like dropped data coming back)
-				return fmt.Errorf("harness-timeout: the write was not answered within %s (its fate is unknown): %v", s.hc.Timeout, err)
+				// the request may still be executed by the server later: never send it again
+				return refused, fmt.Errorf("harness-timeout: the write was not answered within %s (its fate is unknown): %v", s.hc.Timeout, err)
 			}
 			last = err
+			refused = append(refused, err.Error())
 			time.Sleep(300 * time.Millisecond)
 			continue
 		}
 		b, _ := io.ReadAll(resp.Body)
 		resp.Body.Close()
 		if resp.StatusCode < 300 {
-			return nil
+			return refused, nil
 		}
 		last = fmt.Errorf("write status %d: %.300s", resp.StatusCode, b)
+		refused = append(refused, last.Error())
 		time.Sleep(300 * time.Millisecond)
 	}
-	return last
+	return refused, last
 }
 
 func isTimeout(err error) bool {
@@ -409,11 +419,13 @@ type Out struct {
 	Drop2     *Drop    `json:"drop2,omitempty"` // the drop that is followed by kill -9 at once
 	// late drops (participants only): Drop3 names a series (host=e) that lives only in an index created AFTER the restart,
 	// Drop4 a series (host=f) of the ordinary time range; both series still have their rows in the WAL at the kill -9
-	Drop3 *Drop   `json:"drop3,omitempty"`
-	Drop4 *Drop   `json:"drop4,omitempty"`
-	W4    []Point `json:"w4,omitempty"`
-	Churn []Point `json:"churn,omitempty"`
+	Drop3 *Drop       `json:"drop3,omitempty"`
+	Drop4 *Drop       `json:"drop4,omitempty"`
+	W4    []Point     `json:"w4,omitempty"`
+	Churn []Point     `json:"churn,omitempty"`
 	Late  []SeriesKey `json:"late_series,omitempty"` // series added by the late phase (indexes into Series continue)
+	// write attempts the server refused before it accepted the batch (the refused attempt may be applied later by the server)
+	Refused []string `json:"refused_write_attempts,omitempty"`
 }
 
 const fieldK = 5 // threshold of the field filter
@@ -428,8 +440,9 @@ type runner struct {
 	dropped3 []row
 	dropped4 []row
 	// crash phase: the candidate sets (label -> rows); a wrong answer is classified by the subset of them that explains it
-	sets map[string][]row
-	late bool // takes part in the late phase
+	sets   map[string][]row
+	prefer map[string]int // measurement -> subset (bit mask over the sorted labels) that explained a raw select in this phase
+	late   bool           // takes part in the late phase
 }
 
 func fullMst(h *History, m string) string {
@@ -504,6 +517,17 @@ func (rn *runner) liveRows(m string, q *Pred, field bool) []row {
 			continue
 		}
 		out = append(out, x)
+	}
+	return out
+}
+
+// inRange: the rows of the time-range shapes, [45 s, 95 s) after the base time
+func inRange(rows []row) []row {
+	out := rows[:0:0]
+	for _, x := range rows {
+		if x.T >= 45 && x.T < 95 {
+			out = append(out, x)
+		}
 	}
 	return out
 }
@@ -600,6 +624,10 @@ func (rn *runner) readAll(phase string, prime bool) {
 			shp{Shape{Name: "ss-where-re", Path: 1, Q: or2}, "show series from " + fm + " where host =~ /a|b/", false, "series"},
 			shp{Shape{Name: "ss-where-nre", Path: 1, Q: or2, Neg: true}, "show series from " + fm + " where host !~ /a|b/", false, "series"},
 			shp{Shape{Name: "ss-where-region", Path: 1, Q: regX, Region: true}, "show series from " + fm + " where region = 'x'", false, "series"},
+			shp{Shape{Name: "time-range", Path: 0}, fmt.Sprintf("select * from %s where time >= %d and time < %d", fm, (baseSec+45)*1e9, (baseSec+95)*1e9), false, "rawrange"},
+			shp{Shape{Name: "time-range-tag-neq", Path: 0, Q: neqA}, fmt.Sprintf("select * from %s where host != 'a' and time >= %d and time < %d", fm, (baseSec+45)*1e9, (baseSec+95)*1e9), false, "rawrange"},
+			shp{Shape{Name: "max-by-tag", Path: 0}, "select max(v) from " + fm + " group by host", false, "maxby"},
+			shp{Shape{Name: "last-by-tag", Path: 0}, "select last(v) from " + fm + " group by host", false, "lastby"},
 			shp{Shape{Name: "card-series-exact", Path: 2, Agg: true}, "show series exact cardinality from " + fm, false, "card"},
 			shp{Shape{Name: "card-tagvalues-exact", Path: 2, Agg: true}, "show tag values exact cardinality from " + fm + " with key = host", false, "tvcard"},
 		)
@@ -635,6 +663,9 @@ func (rn *runner) readAll(phase string, prime bool) {
 				}
 				live = in
 			}
+			if sh.kind == "rawrange" {
+				live = inRange(live)
+			}
 			attempt := 0
 		again:
 			o.Rows, o.Series, o.Want, o.Err = nil, nil, nil, ""
@@ -653,9 +684,32 @@ func (rn *runner) readAll(phase string, prime bool) {
 				continue
 			}
 			switch sh.kind {
-			case "raw", "groupraw":
+			case "raw", "groupraw", "rawrange":
 				o.Rows, o.Series = canonRaw(ss)
 				o.Want = wantRaw(h, live)
+			case "maxby", "lastby":
+				o.Want = rn.wantOf(sh.kind, live)
+				for _, s := range ss {
+					ti, vi := col(s, "time"), col(s, "max")
+					if sh.kind == "lastby" {
+						vi = col(s, "last")
+					}
+					for _, r := range s.Values {
+						if vi < 0 || r[vi] == nil {
+							continue
+						}
+						v, _ := toInt(r[vi])
+						if sh.kind == "maxby" {
+							o.Rows = append(o.Rows, fmt.Sprintf("%s|%d", s.Tags["host"], v))
+						} else {
+							t, _ := toInt(r[ti])
+							o.Rows = append(o.Rows, fmt.Sprintf("%s|%d|%d", s.Tags["host"], t/1e9-baseSec, v))
+						}
+						o.Series = append(o.Series, s.Tags["host"])
+					}
+				}
+				sort.Strings(o.Rows)
+				sort.Strings(o.Series)
 			case "count", "countby", "counttime":
 				// canonical: "<group>|count|sum"
 				groups := map[string][2]int64{}
@@ -847,7 +901,16 @@ func (rn *runner) classify(m string, sh *Shape, field bool, kind string, got, wa
 		sort.Strings(labels)
 		saved := rn.dropped
 		defer func() { rn.dropped = saved }()
+		// count-only shapes (cardinalities) can be explained by several subsets: the subset that explained a raw select of the
+		// same measurement in this phase is tried first
+		masks := make([]int, 0, 1<<len(labels))
+		if pm, ok := rn.prefer[m]; ok {
+			masks = append(masks, pm)
+		}
 		for mask := 1; mask < 1<<len(labels); mask++ {
+			masks = append(masks, mask)
+		}
+		for _, mask := range masks {
 			var rows []row
 			name := ""
 			for i, l := range labels {
@@ -858,6 +921,12 @@ func (rn *runner) classify(m string, sh *Shape, field bool, kind string, got, wa
 			}
 			rn.dropped = rows
 			if rn.classify1(m, sh, field, kind, got, want, true) == "dropped-only" {
+				if kind == "raw" || kind == "groupraw" {
+					if rn.prefer == nil {
+						rn.prefer = map[string]int{}
+					}
+					rn.prefer[m] = mask
+				}
 				return "dropped-only:" + name[1:]
 			}
 		}
@@ -872,7 +941,7 @@ func (rn *runner) classify1(m string, sh *Shape, field bool, kind string, got, w
 		return ""
 	}
 	h := rn.h
-	if kind == "raw" || kind == "groupraw" {
+	if kind == "raw" || kind == "groupraw" || kind == "rawrange" {
 		extra := map[string]int{}
 		for _, g := range got {
 			extra[g]++
@@ -882,7 +951,7 @@ func (rn *runner) classify1(m string, sh *Shape, field bool, kind string, got, w
 		}
 		dr := map[string]bool{}
 		for _, x := range rn.dropped {
-			if h.Series[x.S].Mst == m {
+			if h.Series[x.S].Mst == m && (kind != "rawrange" || (x.T >= 45 && x.T < 95)) {
 				dr[fmt.Sprintf("%s|%d|%d", h.Series[x.S].Tags["host"], x.T, x.V)] = true
 			}
 		}
@@ -915,7 +984,10 @@ func (rn *runner) classify1(m string, sh *Shape, field bool, kind string, got, w
 		live = rn.liveRows(m, sh.Q, field)
 	}
 	var w []string
-	if kind == "raw" || kind == "groupraw" {
+	if kind == "rawrange" {
+		live = inRange(live)
+	}
+	if kind == "raw" || kind == "groupraw" || kind == "rawrange" {
 		w = wantRaw(h, live)
 		if w == nil {
 			w = []string{}
@@ -966,6 +1038,22 @@ func (rn *runner) wantOf(kind string, live []row) []string {
 				w = append(w, fmt.Sprintf("%s|%d", g, c[0]))
 			} else {
 				w = append(w, fmt.Sprintf("%s|%d|%d", g, c[0], c[1]))
+			}
+		}
+	case "maxby", "lastby":
+		best := map[string]row{}
+		for _, x := range live {
+			hst := h.Series[x.S].Tags["host"]
+			b, ok := best[hst]
+			if !ok || (kind == "maxby" && x.V > b.V) || (kind == "lastby" && x.T > b.T) {
+				best[hst] = x
+			}
+		}
+		for hst, b := range best {
+			if kind == "maxby" {
+				w = append(w, fmt.Sprintf("%s|%d", hst, b.V))
+			} else {
+				w = append(w, fmt.Sprintf("%s|%d|%d", hst, b.T, b.V))
 			}
 		}
 	case "series":
@@ -1078,7 +1166,11 @@ func (rn *runner) writePoints(ps []Point) error {
 		sb.WriteString(lineOf(rn.h.Series[p.S], p.T, p.V))
 		sb.WriteByte('\n')
 	}
-	return rn.s.write(rn.h.DB, rn.h.RP, sb.String())
+	refused, err := rn.s.write(rn.h.DB, rn.h.RP, sb.String())
+	for _, m := range refused {
+		rn.out.Refused = append(rn.out.Refused, fmt.Sprintf("%d points from t=%d: %.160s", len(ps), ps[0].T, m))
+	}
+	return err
 }
 
 const churnRounds = 8
@@ -1529,7 +1621,7 @@ func main() {
 					return
 				default:
 				}
-				_ = srv.write(sharedDB, "", fmt.Sprintf("warm,host=w v=1i %d\nwarm,host=w v=1i %d", (baseSec+1000+i)*1e9, (baseSec+lateOff+1000+i)*1e9))
+				_, _ = srv.write(sharedDB, "", fmt.Sprintf("warm,host=w v=1i %d\nwarm,host=w v=1i %d", (baseSec+1000+i)*1e9, (baseSec+lateOff+1000+i)*1e9))
 				time.Sleep(700 * time.Millisecond)
 			}
 		}()
@@ -1573,9 +1665,9 @@ func main() {
 		})
 		pstep("after-late-drop", func(rn *runner) error {
 			if rn.late {
-				rn.sets = map[string][]row{"d3": rn.dropped3, "d4": rn.dropped4}
+				rn.sets, rn.prefer = map[string][]row{"d3": rn.dropped3, "d4": rn.dropped4}, nil
 				rn.readAll("after-late-drop", false)
-				rn.sets = nil
+				rn.sets, rn.prefer = nil, nil
 			}
 			return nil
 		})
@@ -1613,7 +1705,7 @@ func main() {
 			pstep("after-crash", func(rn *runner) error {
 				if rn.out.Drop2 != nil || rn.late {
 					// a wrong answer in this phase is classified by the subset of the late drops whose undoing explains it
-					rn.sets = map[string][]row{}
+					rn.sets, rn.prefer = map[string][]row{}, nil
 					if rn.out.Drop2 != nil {
 						rn.sets["d2"] = rn.dropped2
 					}
